@@ -4,6 +4,7 @@ import (
 	"fmt"
 	"strconv"
 	"strings"
+	"sync/atomic"
 	"time"
 
 	"github.com/vektah/gqlparser/v2/ast"
@@ -95,6 +96,70 @@ func runC16(c *core.Ctx) {
 		}
 		c.Seen(true, []byte(d.text))
 	})
+	// several sources in one call (ParseSchemas / ParseSchemasWithLimit): the limit applies to each
+	// source by itself, whatever the other sources are (built-in or not, before or after)
+	var sdocs []doc
+	for _, d := range docs {
+		if d.schema {
+			sdocs = append(sdocs, d)
+		}
+	}
+	nMulti := len(sdocs) / 2
+	type multi struct {
+		srcs [][]byte
+		ntok []int
+	}
+	multis := make([]multi, nMulti)
+	for i := range multis {
+		k := 2 + c.Rng.Intn(2)
+		for j := 0; j < k; j++ {
+			d := gen.Pick(c.Rng, sdocs)
+			flag := "0"
+			if c.Rng.Chance(1, 3) {
+				flag = "1"
+			}
+			multis[i].srcs = append(multis[i].srcs, []byte(flag+d.text))
+			multis[i].ntok = append(multis[i].ntok, d.ntok)
+		}
+	}
+	var multiCases int64
+	c.Pool.ParFor(nMulti, func(w, i int) {
+		m := multis[i]
+		limits := map[int]bool{0: true, 1: true}
+		for _, n := range m.ntok {
+			limits[n-1], limits[n], limits[n+1] = true, true, true
+		}
+		mk := func(l int) [][]byte {
+			return append([][]byte{[]byte("1"), []byte(strconv.Itoa(l))}, m.srcs...)
+		}
+		unlimited := c.Impl(w, "pss", mk(0)...)
+		for l := range limits {
+			if l < 0 {
+				continue
+			}
+			args := mk(l)
+			impl := c.Impl(w, "pss", args...)
+			v, cur, none := c.Tie(w, "pss", impl, args...)
+			if v == core.Violation {
+				c.Report(w, "pss", thm, args, impl, cur, none)
+			}
+			atomic.AddInt64(&multiCases, 1)
+			if !strings.HasPrefix(unlimited, "ok") {
+				continue
+			}
+			over := false
+			for _, n := range m.ntok {
+				if l > 0 && n > l {
+					over = true
+				}
+			}
+			if (over && impl != "err L") || (!over && impl != unlimited) {
+				c.ReportOracle("limit-not-exact", map[string]interface{}{"op": "pss", "args": hexArgs(args), "limit": l, "tokens_per_source": m.ntok,
+					"implementation": impl[:min(len(impl), 200)], "note": "ParseSchemasWithLimit: every source by itself is subject to the limit"})
+			}
+		}
+	})
+	c.Count("multi_source_x_limit_cases", multiCases)
 	for _, d := range docs {
 		total += int64(d.ntok + 3)
 	}
